@@ -123,6 +123,53 @@ def make_until():
     return mk, replay
 
 
+def native_real_csv():
+    """concrete: real delimited texts (blank lines, quoted cells with line breaks, a missing final newline) through the
+    real csv container: header and limit count the rows the csv module delivers -- a blank line is a row (with no
+    items), a quoted cell spanning two lines is one row.  Exploration over a finite list, not a solver verdict."""
+    import csv
+    import io
+    from cutplace import interface, validio, errors
+    failures = []
+    n = 0
+    keys = ("t12",)
+    texts = ["ab\ncd\nx\n", "ab\n\ncd\nx\n", "\nab\ncd\n", "ab\n\n\ncd\n", "ab\ncd\n\n", "\n\n\n", "title\n\nab\ncd\ntoolong\nx",
+             '"a\nb"\ncd\nx\n', 'h\n"multi\nline\ncaption"\nab\ntoolong\ncd\n', "ab\r\n\r\ncd\r\ntoolong\r\n", '""\nab\n""\n',
+             "toolong\n\ntoolong\nab\n"]
+    for text in texts:
+        rows = list(csv.reader(io.StringIO(text, newline=""), strict=True))
+        for header in (0, 1, 2, 3):
+            for limit in (None, 0, 1, 2, 3, 5):
+                n += 1
+                cid = interface.create_cid_from_string(rf.cid_text(keys, extra=("d,header,%d" % header,)))
+                exp = rf.ref_read(rows, header, limit, keys)
+                try:
+                    got = rf.observe(list(validio.rows(cid, io.StringIO(text, newline=""), on_error="yield", validate_until=limit)))
+                except Exception as e:  # noqa
+                    failures.append(dict(key="header-limit-real-csv", what="text %r header %d limit %r: rows() raised %s: %s" % (
+                        text, header, limit, type(e).__name__, e), args=dict(text=text, header=header, limit=limit)))
+                    continue
+                if not rf.same_output(got, exp):
+                    failures.append(dict(key="header-limit-real-csv", what="text %r (csv rows %r) header %d limit %r: got %r expected %r" % (
+                        text, rows, header, limit, got, [e[:3] for e in exp]), args=dict(text=text, header=header, limit=limit)))
+                    continue
+                # the validate-only API agrees
+                first = None
+                for e in exp:
+                    if e[0] == "err" and first is None:
+                        first = e
+                try:
+                    validio.validate(cid, io.StringIO(text, newline=""), validate_until=limit)
+                    raised = None
+                except errors.DataError as e:
+                    raised = e
+                if (raised is None) != (first is None) or (raised is not None and raised.location.line != first[1]):
+                    failures.append(dict(key="header-limit-real-csv", what="text %r header %d limit %r: validate() raised %r, expected "
+                                         "the error of row %r" % (text, header, limit, raised, None if first is None else first[1] + 1),
+                                         args=dict(text=text, header=header, limit=limit)))
+    return dict(count=n, failures=failures, samples=[])
+
+
 def build(tier, seed):
     queries = []
     shapes = [(("t12",), 3), (("t12",), 4), (("ch", "t01"), 2), (("t12",), 1), (("t12",), 0)]
@@ -155,7 +202,7 @@ def build(tier, seed):
                          expect=("exit2", "all", "zero", "some"), replay=rp, functions=FUNCS,
                          stubs=("S-ARGS argparse.ArgumentParser.parse_args -> Namespace with symbolic validate_until",
                                 "CutplaceApp.set_cid_from_path -> recorder")))
-    return dict(queries=queries,
+    return dict(queries=queries, native=native_real_csv,
                 assumptions=["rows reach validio exactly as the container reader yields them (S-ROWS)"],
                 outside_claim=["argparse's own text-to-int conversion", "the end-to-end subprocess", "tables above the bounds"],
                 exhaustive=False)
